@@ -20,6 +20,11 @@ import (
 type pathEnv struct {
 	phi   map[*ssa.Phi]ssa.Value
 	truth map[ssa.Value]bool
+	// interprocedural exploration (ipaths.go): parameters / free variables / single results
+	// bound to caller-side values, tuple results of inlined calls, and known nil-ness
+	bind map[ssa.Value]ssa.Value
+	res  map[*ssa.Call][]ssa.Value
+	nilK map[ssa.Value]bool // true: known nil, false: known non-nil
 }
 
 func (e *pathEnv) clone() *pathEnv {
@@ -30,22 +35,97 @@ func (e *pathEnv) clone() *pathEnv {
 	for k, v := range e.truth {
 		n.truth[k] = v
 	}
+	if e.bind != nil {
+		n.bind = make(map[ssa.Value]ssa.Value, len(e.bind))
+		for k, v := range e.bind {
+			n.bind[k] = v
+		}
+	}
+	if e.res != nil {
+		n.res = make(map[*ssa.Call][]ssa.Value, len(e.res))
+		for k, v := range e.res {
+			n.res[k] = v
+		}
+	}
+	if e.nilK != nil {
+		n.nilK = make(map[ssa.Value]bool, len(e.nilK))
+		for k, v := range e.nilK {
+			n.nilK[k] = v
+		}
+	}
 	return n
 }
 
+// forget drops what is known of a value that is computed anew.
+func (e *pathEnv) forget(v ssa.Value) {
+	delete(e.truth, v)
+	if e.nilK != nil {
+		delete(e.nilK, v)
+	}
+	if c, ok := v.(*ssa.Call); ok && e.res != nil {
+		delete(e.res, c)
+	}
+	if e.bind != nil {
+		delete(e.bind, v)
+	}
+}
+
 func (e *pathEnv) resolve(v ssa.Value) ssa.Value {
-	for i := 0; i < 8; i++ {
-		p, ok := v.(*ssa.Phi)
-		if !ok {
+	for i := 0; i < 12; i++ {
+		switch x := v.(type) {
+		case *ssa.Phi:
+			r, ok := e.phi[x]
+			if !ok {
+				return v
+			}
+			v = r
+		case *ssa.Parameter, *ssa.FreeVar:
+			r, ok := e.bind[v]
+			if !ok {
+				return v
+			}
+			v = r
+		case *ssa.Extract:
+			c, ok := x.Tuple.(*ssa.Call)
+			if !ok {
+				return v
+			}
+			rs, ok := e.res[c]
+			if !ok || x.Index >= len(rs) {
+				return v
+			}
+			v = rs[x.Index]
+		case *ssa.Call:
+			rs, ok := e.res[x]
+			if !ok || len(rs) != 1 {
+				return v
+			}
+			v = rs[0]
+		default:
 			return v
 		}
-		r, ok := e.phi[p]
-		if !ok {
-			return v
-		}
-		v = r
 	}
 	return v
+}
+
+// knownNil: is the (resolved) value known to be nil / non-nil on this path?
+func (e *pathEnv) knownNil(v ssa.Value) (known, isNil bool) {
+	v = e.resolve(v)
+	if isNilConst(v) {
+		return true, true
+	}
+	if n, ok := e.nilK[v]; ok {
+		return true, n
+	}
+	switch x := v.(type) {
+	case *ssa.Alloc, *ssa.MakeInterface, *ssa.MakeClosure, *ssa.MakeMap, *ssa.MakeChan, *ssa.FieldAddr, *ssa.IndexAddr, *ssa.Function, *ssa.Global:
+		return true, false
+	case *ssa.ChangeInterface:
+		return e.knownNil(x.X)
+	case *ssa.ChangeType:
+		return e.knownNil(x.X)
+	}
+	return false, false
 }
 
 // eval: the truth of a boolean value under the environment (known, value).
@@ -69,6 +149,11 @@ func (e *pathEnv) eval(v ssa.Value, depth int) (bool, bool) {
 			}
 		}
 	case *ssa.BinOp:
+		if nv, isEq, ok := isNilCmp(x); ok {
+			if known, isNil := e.knownNil(nv); known {
+				return true, isNil == isEq
+			}
+		}
 		a, b := e.resolve(x.X), e.resolve(x.Y)
 		ca, okA := a.(*ssa.Const)
 		cb, okB := b.(*ssa.Const)
@@ -100,6 +185,12 @@ func (e *pathEnv) eval(v ssa.Value, depth int) (bool, bool) {
 func (e *pathEnv) learn(cond ssa.Value, branch bool) {
 	cond = e.resolve(cond)
 	e.truth[cond] = branch
+	if nv, isEq, ok := isNilCmp(cond); ok {
+		if e.nilK == nil {
+			e.nilK = map[ssa.Value]bool{}
+		}
+		e.nilK[e.resolve(nv)] = isEq == branch
+	}
 	for _, f := range normCond(cond, branch) {
 		if f.Op == "true" {
 			e.truth[e.resolve(f.X)] = f.Truth
